@@ -151,12 +151,16 @@ def rest_stream(run, n, bit_ok):
     res = []
     for k in range(max(1, n // 2)):
         name = "r%03d" % k
-        pkg = restgen.gen_iface_pkg(rng, name, n_ifaces=rng.randint(1, 3))
+        # the first package is restgen's fixed coverage package (same-named struct types from three packages as GET, DELETE
+        # and body parameters across two interfaces of one run); the others are random draws
+        pkg = restgen.gen_coverage_pkg(rng, name) if k == 0 else restgen.gen_iface_pkg(rng, name, n_ifaces=rng.randint(1, 3))
         files = restgen.render_go(pkg, "c01mod")
         own = {p.split("/", 1)[1]: t for p, t in files.items() if p.startswith(name + "/")}
         extra = {p: t for p, t in files.items() if not p.startswith(name + "/")}
         inames = [i["name"] for i in pkg["ifaces"]]
         mode = rng.choice(["list", "file", "star", "single"])
+        if k == 0:
+            mode = "list"
         fname = list(own)[0]
         if mode == "single":
             sel, types = ["-type=" + inames[0]], inames[:1]
